@@ -24,6 +24,42 @@ fn main() {
                 }
             }
         }
+        Some("proto") => {
+            // the generated .proto file(s) of the given modules
+            use asn1rs_model::asn::MultiModuleResolver;
+            use asn1rs_model::generate::protobuf::ProtobufDefGenerator;
+            use asn1rs_model::generate::Generator;
+            use asn1rs_model::parse::Tokenizer;
+            use asn1rs_model::protobuf::ToProtobufModel;
+            use asn1rs_model::Model;
+            let r = vharness::util::guarded(|| -> Result<Vec<serde_json::Value>, String> {
+                let mut res = MultiModuleResolver::default();
+                for f in &args[2..] {
+                    let text = std::fs::read_to_string(f).expect("read");
+                    res.push(Model::try_from(Tokenizer.parse(&text)).map_err(|e| format!("parse: {}", e))?);
+                }
+                let models = res.try_resolve_all().map_err(|e| format!("resolve: {}", e))?;
+                let scope = models.iter().collect::<Vec<_>>();
+                let mut out = Vec::new();
+                for m in &models {
+                    let mut g = ProtobufDefGenerator::default();
+                    g.add_model(m.to_rust_with_scope(&scope[..]).to_protobuf());
+                    for (file, content) in g.to_string().map_err(|e| format!("generator: {:?}", e))? {
+                        out.push(json!({"file": file, "proto": content}));
+                    }
+                }
+                Ok(out)
+            });
+            match r {
+                Err(p) => println!("{}", json!({"error": format!("panic: {}", p)})),
+                Ok(Err(e)) => println!("{}", json!({"error": e})),
+                Ok(Ok(ms)) => {
+                    for m in ms {
+                        println!("{}", m);
+                    }
+                }
+            }
+        }
         Some("canon") => {
             // resolves the given files together in the given order; one JSON line per module (or one error line)
             use asn1rs_model::asn::MultiModuleResolver;
